@@ -152,7 +152,7 @@ class StorageClientConfig:
         :param _Config config: The loaded Tahoe-LAFS node configuration.
         """
         ps = config.get_config("client", "peers.preferred", "").split(",")
-        preferred_peers = tuple([p.strip() for p in ps if p != ""])
+        preferred_peers = tuple([p.strip().encode("ascii") for p in ps if p != ""])
 
         enabled_storage_plugins = (
             name.strip()
